@@ -21,6 +21,7 @@ type Clause struct {
 }
 
 type LoopSpec struct {
+	Steps      []*Clause // per-iteration postconditions checked at every back edge ($head(e) = e at iteration start)
 	Entry      []*Clause // asserted when the loop is entered (state after the code before it)
 	Assumes    []*Clause // trusted facts of every iteration (representation invariants of other types)
 	Invariants []*Clause
@@ -697,6 +698,13 @@ func (ct *Contract) addClause(txt, file string, line int) error {
 				return err
 			}
 			ls.Invariants = append(ls.Invariants, c)
+		case "step":
+			// checked at every back edge, not assumed: what one iteration does
+			c, err := mk(body)
+			if err != nil {
+				return err
+			}
+			ls.Steps = append(ls.Steps, c)
 		case "entry":
 			// checked once, when the loop is entered; neither preserved nor assumed
 			c, err := mk(body)
